@@ -22,6 +22,9 @@ def match_slot(exp, slot):
         return slot["k"] in SLOT_KINDS
     if k in ("empty", "err"):
         return slot["k"] == k
+    if k == "ts":
+        want = [exp["d"], exp["s"]]
+        return slot["k"] == "num" and slot.get("ts") == want and slot.get("pr", want) == want
     if k == "notkind":
         return slot["k"] in SLOT_KINDS and slot["k"] != exp["kind"]
     if slot["k"] != k:
@@ -49,6 +52,12 @@ def match_slot(exp, slot):
             return False
         return slot["sod"] == exp["sod"] and slot["off"] == exp["off"]
     if k == "datetime":
+        if "civil" in exp and "pr" in slot:
+            pr, c = slot["pr"], exp["civil"]
+            if pr[0] != c["d"] or pr[1] != c["m"] or not (pr[2] == c["y"] or (pr[2] == 0 and c["y"] == exp.get("cury"))):
+                return False
+            if pr[3] != exp["wall"] or pr[4] != exp["zone"]:
+                return False
         return slot["d"] == exp["d"] and slot["s"] == exp["s"] and slot["off"] == exp["off"]
     return False
 
